@@ -7,5 +7,5 @@ import (
 )
 
 func TestWorker(t *testing.T) {
-	core.WorkerMain(t, core.Property{ID: "C18", Configs: []string{"clean", "faulty"}, Build: Build})
+	core.WorkerMain(t, core.Property{ID: "C18", Configs: []string{"clean", "faulty", "scripted"}, Build: Build})
 }
